@@ -60,6 +60,10 @@ func (ps *PartitionSet) AddRange(partName, modelName string, start, end, modulo 
 			return
 		}
 		ps.partitions[i] = partitionIndex
+		if modulo > end-i {
+			// the next site would be beyond the end (and i+modulo could overflow)
+			break
+		}
 	}
 	return
 }
